@@ -24,7 +24,7 @@ RULE = ('populations of 0-64 responders (UIDs at 0000:00000000/1/2, ffff:fffffff
         'streams (timeouts, collisions, valid frames of recurring UIDs, mutated frames of every length 0-32, '
         'failure/attempt counters driven to 4/5/6) incl. an endless tail; client histories on an asynchronous line '
         '(full/incremental Starts in any order, a Start while one is running, a Start issued from inside the '
-        'completion callback, Abort() or destruction of the agent at any point incl. the incremental mute phase, population changes between '
+        'completion callback, Abort() from inside the completion callback, Abort() or destruction of the agent at any point incl. the incremental mute phase, population changes between '
         'runs, state carried from run to run) with every completion event (start id, status, UID set) compared; every Branch/MuteDevice/UnMuteAll call '
         'of the real agent is compared with the model (first 120 verbatim, all by hash and count), as are '
         'completion count, status and UID set; non-trivial = run completed and found >= 1 UID; '
@@ -218,7 +218,7 @@ def gen_history(rng):
     ops = ['P:' + pop_s(pop)]
     style = rng.randrange(8)
     def start():
-        return 'S' + rng.choice('FI') + rng.choice('nnnfi')
+        return 'S' + rng.choice('FI') + rng.choice('nnnfia')
     if style == 0:
         # abort inside the "mute previously known devices" phase of an incremental run, then a full run
         ops += ['SFn', 'R*', 'SIn', 'R%d' % rng.choice([3, 3 + rng.randrange(0, n + 1), 4, 5]), 'A',
@@ -272,10 +272,12 @@ LEVEL_TEXT = ('Coq theorems over an executable step-machine model of DiscoveryAg
               'from inside the callback do; c11_complete / c11_complete_any_state - against conforming responders a '
               'full discovery started in ANY idle state (whatever earlier, possibly aborted, runs left) returns status '
               'true and exactly the connected set; c11_incremental - an incremental discovery returns exactly the '
-              'now-connected set; c11_bounded_tx - both within 4 + (previously known UIDs) + 98*|S| transactions; '
+              'now-connected set; c11_complete_wired(_or) - the same WITHOUT assuming that a collision fails validation: '
+              'whatever non-empty bytes the line carries when several responders answer (e.g. the byte-wise OR, which can '
+              'be a valid frame of a phantom UID), the result is exactly the connected set; c11_bounded_tx - both within 4 + (previously known UIDs) + 98*|S| transactions; '
               'c11_late_reply - a reply delivered after Abort() changes nothing (code with fixes/03); c11_destroy - '
-              'destroying the agent mid-run completes the run once with false. Completeness assumes explicitly that the bytes of a collision do not decode as a '
-              'valid reply. The pre-fix code is refuted by two machine-checked witnesses (bounded). Model tied to the '
+              'destroying the agent mid-run completes the run once with false. c11_complete/c11_incremental/c11_bounded_tx keep the explicit hypothesis that a collision does not '
+              'decode as a valid reply. The pre-fix code is refuted by two machine-checked witnesses (bounded). Model tied to the '
               'C++ by a differential check of every Branch/MuteDevice/UnMuteAll call and every completion event on an '
               'asynchronous line.')
 LEVEL_NOTE = ('Trusted: Coq kernel (incl. vm_compute for witnesses/examples), extraction (ExtrOcamlBasic), OCaml/C++ '
@@ -284,10 +286,9 @@ LEVEL_NOTE = ('Trusted: Coq kernel (incl. vm_compute for witnesses/examples), ex
               'flight when Abort() is called is dropped by the line or delivered late while no new run has been started '
               '(a stale reply arriving after the NEXT Start is indistinguishable from that run\'s own reply and is not '
               'modelled); '
-              'Abort() is not called from inside a completion callback (by reading, the unchanged code would run that '
-              'callback twice); a DUB reply length fits unsigned int. The conforming line of the completeness theorems '
-              'is a Coq definition (E120.v); harness populations use byte-wise OR of colliding frames, so phantom UIDs '
-              'from collisions are covered by termination and the differential check only. "uids = S" is stated as '
+              'a DUB reply length fits unsigned int. The conforming line of the completeness theorems is a Coq '
+              'definition (E120.v e_step/e_branch; coll_or = byte-wise OR as on the harness line); completeness on it is '
+              'proved for fewer than 2^32 responders (uids_discovered is an unsigned int). "uids = S" is stated as '
               'equality of membership.')
 TECHNIQUE = 'Coq proof on hand-written executable model + extracted-model/implementation differential correspondence'
 DESIGN_REF = 'DESIGN.md §4 C11'
